@@ -711,6 +711,37 @@ theorem basis_modes_distinct (ansi : Bool) (start num : Nat) (hs : ansi = false 
     have := noll_injective _ _ (by omega) (by omega) h
     omega
 
+/-- **Columns of `make_zernike_basis(num, D, grid, starting_mode, ansi, radial_cutoff, use_cache)`**: on a separated polar or
+unstructured grid, with the shared cache or without, column `j` is the plain mode of index `starting_mode + j` in the
+code's layout (`basisA` runs the list comprehension of the code on the array-level cache model). -/
+theorem basis_columns (ansi : Bool) (start num : Nat) (D : Rat) (g : AGrid) (hg : g.WF) (cutoff useCache : Bool) :
+    basisA ansi start num D g cutoff useCache =
+      (basisModes ansi start num).map fun nm => plainA D g ⟨nm.1, nm.2, cutoff⟩ := by
+  unfold basisA basisReqs
+  cases useCache
+  · simp only [Bool.false_eq_true, if_false, List.map_map]
+    apply List.map_congr_left
+    intro nm _
+    have := acache_irrelevant D g hg [⟨nm.1, nm.2, cutoff⟩]
+    simpa [resultsA, runA] using this
+  · simp only [if_true]
+    rw [acache_irrelevant D g hg, List.map_map]
+    rfl
+
+/-- `use_cache` does not change the basis -/
+theorem basis_cache_irrelevant (ansi : Bool) (start num : Nat) (D : Rat) (g : AGrid) (hg : g.WF) (cutoff : Bool) :
+    basisA ansi start num D g cutoff true = basisA ansi start num D g cutoff false := by
+  rw [basis_columns ansi start num D g hg, basis_columns ansi start num D g hg]
+
+/-- column `j` by index -/
+theorem basis_column_index (ansi : Bool) (start num : Nat) (D : Rat) (g : AGrid) (hg : g.WF) (cutoff useCache : Bool)
+    (j : Nat) (hj : j < num) :
+    (basisA ansi start num D g cutoff useCache)[j]? =
+      some (plainA D g ⟨(if ansi then ansiToZernike (start + j) else nollToZernike (start + j)).1,
+        (if ansi then ansiToZernike (start + j) else nollToZernike (start + j)).2, cutoff⟩) := by
+  rw [basis_columns ansi start num D g hg, List.getElem?_map, basis_mode_index ansi start num j hj]
+  rfl
+
 /-- closures that bind the loop variable late all evaluate the last index (seeded defect class):
 already for two modes the first generator is wrong -/
 theorem Old.basis_late_binding_counterexample :
